@@ -336,10 +336,13 @@ class ReservablePriorityReqFilterStore(FilterStore):
             # Successful reservation; add to reservations list
             item_len = len(self.reserved_events)
             #check if there any items that satisfy filter condition in other items thatare not already reserved
-            for item in self.items[item_len:]:
+            for idx, item in enumerate(self.items[item_len:], start=item_len):
 
                 if event.filter(item):
 
+                  # the token is bound by position: bring the matching item to the slot of this token
+                  # (the unreserved items in between keep their order)
+                  self.items.insert(item_len, self.items.pop(idx))
 
                   self.reservations_get.append(event)
                   event.succeed()  # Immediately succeed the event
